@@ -18,7 +18,6 @@ structure Frame where
   domain : Option Str := none
   context : Option Str := none
   targetLang : Val := .none
-  token : Option (Nat × Nat) := none          -- `__token`: (pos, len) of the expression being evaluated
   saved : List (Nat × Nat) := []              -- on-error saved stream lengths
   deriving Inhabited
 
@@ -27,16 +26,26 @@ structure ErrRec where
   len : Nat
   deriving Repr, Inhabited, DecidableEq
 
-structure RState where
-  streams : List Str                           -- innermost stream first
+/-- what evaluating an *expression* can change: the logs and `__token` — by typing, nothing else -/
+structure XState where
+  log : Array Str := #[]
+  tlog : Array TCall := #[]
+  token : Option (Nat × Nat) := none           -- `__token`: (pos, len) of the expression being evaluated
+  deriving Inhabited
+
+/-- what evaluating an expression can read -/
+structure Env where
   own : List (Str × Val)                       -- econtext: this scope's own dictionary
   root : List (Str × Val)                      -- econtext._root's dictionary (shared)
   rcontext : List (Str × Val)
   repeats : List (Str × RepItem)
   frames : List Frame
-  log : Array Str
-  tlog : Array TCall
-  errors : List ErrRec                         -- rcontext['__error__']
+  deriving Inhabited
+
+structure RState where
+  streams : List Str                           -- innermost stream first
+  env : Env
+  x : XState
   handled : Nat                                -- on_error_handler calls
   deriving Inhabited
 
@@ -50,6 +59,33 @@ structure ECfg where
   booleanAttrs : List Str
   strict : Bool
   src : Str                                    -- the (newline-normalised) template source, for token locations
+
+inductive XRes (α : Type)
+  | ok (a : α) (x : XState)
+  | raised (e : Exc) (x : XState)
+  | unsupported (why : String)
+  deriving Inhabited
+
+/-- expression-level monad: reads an `Env`, threads an `XState` -/
+abbrev XM (α : Type) := XState → XRes α
+
+instance : Monad XM where
+  pure a := fun x => .ok a x
+  bind m f := fun x => match m x with
+    | .ok a x' => f a x'
+    | .raised e x' => .raised e x'
+    | .unsupported w => .unsupported w
+
+def xRaise {α} (e : Exc) : XM α := fun x => .raised e x
+def xUnsupported {α} (w : String) : XM α := fun _ => .unsupported w
+def xLiftR {α} (r : R α) : XM α := fun x => match r with
+  | .ok a => .ok a x
+  | .raised e => .raised e x
+  | .unsupported w => .unsupported w
+def xSetToken (t : Tok) : XM Unit := fun x =>
+  let st := Tok.strip t
+  .ok () { x with token := some (st.pos, st.str.length) }
+def xSetTokenRaw (pos len : Nat) : XM Unit := fun x => .ok () { x with token := some (pos, len) }
 
 inductive Res (α : Type)
   | ok (a : α) (s : RState)
@@ -76,44 +112,51 @@ def mLiftR {α} (r : R α) : RM α := fun s => match r with
   | .raised e => .raised e s
   | .unsupported w => .unsupported w
 
+/-- run an expression-level computation: it sees the environment, and can only change `s.x` -/
+def liftX {α} (m : Env → XM α) : RM α := fun s =>
+  match m s.env s.x with
+  | .ok a x' => .ok a { s with x := x' }
+  | .raised e x' => .raised e { s with x := x' }
+  | .unsupported w => .unsupported w
+
+def modEnv (f : Env → Env) : RM Unit := mModify (fun s => { s with env := f s.env })
+
 def emit (t : Str) : RM Unit := mModify (fun s => match s.streams with
   | top :: rest => { s with streams := (top ++ t) :: rest }
   | [] => { s with streams := [t] })
 
-def topFrame (s : RState) : Frame := s.frames.headD {}
-def modFrame (f : Frame → Frame) : RM Unit := mModify (fun s => match s.frames with
-  | fr :: rest => { s with frames := f fr :: rest }
-  | [] => { s with frames := [f {}] })
+def Env.topFrame (e : Env) : Frame := e.frames.headD {}
+def modFrame (f : Frame → Frame) : RM Unit := modEnv (fun e => match e.frames with
+  | fr :: rest => { e with frames := f fr :: rest }
+  | [] => { e with frames := [f {}] })
 
-def setToken (t : Tok) : RM Unit :=
-  let st := Tok.strip t
-  modFrame (fun f => { f with token := some (st.pos, st.str.length) })
-
-def scopeGet (s : RState) (k : Str) : Option Val :=
-  match lookupAssoc s.own k with
+def Env.get (e : Env) (k : Str) : Option Val :=
+  match lookupAssoc e.own k with
   | some v => some v
-  | none => lookupAssoc s.root k
+  | none => lookupAssoc e.root k
 
-def setVar (k : Str) (v : Val) : RM Unit := mModify (fun s => { s with own := (k, v) :: s.own.filter (·.1 != k) })
-def delVar (k : Str) : RM Unit := mModify (fun s => { s with own := s.own.filter (·.1 != k) })
+def setVar (k : Str) (v : Val) : RM Unit := modEnv (fun e => { e with own := (k, v) :: e.own.filter (·.1 != k) })
+def delVar (k : Str) : RM Unit := modEnv (fun e => { e with own := e.own.filter (·.1 != k) })
+def setGlobal (k : Str) (v : Val) : RM Unit :=
+  modEnv (fun e => { e with rcontext := (k, v) :: e.rcontext.filter (·.1 != k) })
 
 def isSubclass (cfg : ECfg) (cls : String) (of_ : List String) : Bool :=
   match cfg.excParents.find? (·.1 == cls) with
   | some (_, mro) => mro.any (fun c => of_.contains c)
   | none => of_.contains cls
 
-/-- run an `EM` computation of the expression evaluator inside `RM` -/
-def runEM {α} (x : EM α) : RM α := fun s =>
-  match x { log := s.log } with
-  | (.ok a, es) => .ok a { s with log := es.log }
-  | (.raised e, es) => .raised e { s with log := es.log }
+/-- run an `EM` computation of the Python-subset evaluator: only the recorder log changes -/
+def runEM {α} (m : EM α) : XM α := fun x =>
+  match m { log := x.log } with
+  | (.ok a, es) => .ok a { x with log := es.log }
+  | (.raised e, es) => .raised e { x with log := es.log }
   | (.unsupported w, _) => .unsupported w
 
-def mkECtx (cfg : ECfg) (al : List (Str × Val)) (s : RState) : ECtx :=
-  { tab := cfg.tab, vars := s.own ++ s.root, aliases := al, repeats := s.repeats, pyBuiltins := cfg.pyBuiltins }
+def mkECtx (cfg : ECfg) (al : List (Str × Val)) (e : Env) : ECtx :=
+  { tab := cfg.tab, vars := e.own ++ e.root, aliases := al, repeats := e.repeats, pyBuiltins := cfg.pyBuiltins }
 
 /-- value classes of `__quote` / `__convert` -/
-def toQIn (cfg : ECfg) (v : Val) : RM QIn :=
+def toQIn (cfg : ECfg) (v : Val) : R QIn :=
   match v with
   | .none => pure .none
   | .dflt => pure .marker
@@ -125,11 +168,11 @@ def toQIn (cfg : ECfg) (v : Val) : RM QIn :=
     | some o => match o.html with
       | some h => pure (.html h)
       | none => pure (.other o.strForm o.translation)
-    | none => mUnsupported "unknown object"
+    | none => .unsupported "unknown object"
   | .bool _ | .cint _ | .cstr _ | .list _ | .tuple _ | .excClass _ | .excValue _ _ => do
-    let s ← mLiftR (Val.strOf cfg.tab v)
+    let s ← Val.strOf cfg.tab v
     pure (.other s none)
-  | _ => mUnsupported "conversion of this value to text"
+  | _ => .unsupported "conversion of this value to text"
 
 def escQ : Esc → Option (Option Nat × Str)
   | .none => none
@@ -140,8 +183,8 @@ def escQ : Esc → Option (Option Nat × Str)
 
 /-- `_convert_text(target, char_escape)`: `__quote` for an escaping class, `emit_convert` otherwise;
 the result is `none` (Python `None`), or text -/
-def convertText (cfg : ECfg) (esc : Esc) (dflt : Option Str) (v : Val) : RM (Option Str) := do
-  if esc == .emptyQ then mUnsupported "dynamic value for an unquoted/valueless static attribute (D-07b)" else
+def convertText (cfg : ECfg) (esc : Esc) (dflt : Option Str) (v : Val) : R (Option Str) := do
+  if esc == .emptyQ then .unsupported "dynamic value for an unquoted/valueless static attribute (D-07b)" else
   let q ← toQIn cfg v
   match escQ esc with
   | some (qc, qe) => pure (quoteVal qc qe dflt q)
@@ -170,212 +213,208 @@ def simpleTranslate (rx : Rx) (msgid : Str) (mapping : Option (List (Str × Str)
     go 0 ms []
 
 /-- the `translate(...)` call of the generated code, with the frame's i18n triple -/
-def callTranslate (cfg : ECfg) (msgid : Str) (mapping : Option (List (Str × Str))) (dflt : Option Str) : RM Str := do
-  let s ← mGet
-  let fr := topFrame s
-  let tgt : Option Str := match fr.targetLang with | .str t => some t | _ => none
-  let call : TCall := ⟨msgid, mapping, dflt, fr.domain, fr.context, tgt⟩
-  mModify (fun s => { s with tlog := s.tlog.push call })
-  pure (simpleTranslate cfg.tc.rx msgid mapping dflt)
+def callTranslate (cfg : ECfg) (env : Env) (msgid : Str) (mapping : Option (List (Str × Str))) (dflt : Option Str) : XM Str :=
+  fun x =>
+    let fr := env.topFrame
+    let tgt : Option Str := match fr.targetLang with | .str t => some t | _ => none
+    let call : TCall := ⟨msgid, mapping, dflt, fr.domain, fr.context, tgt⟩
+    .ok (simpleTranslate cfg.tc.rx msgid mapping dflt) { x with tlog := x.tlog.push call }
 
 mutual
 /-- evaluate a compiled TALES expression to an object -/
-def evalT (cfg : ECfg) (al : List (Str × Val)) : Nat → TExpr → Esc → Option Str → RM Val
-  | 0, _, _, _ => mUnsupported "expression nesting too deep"
+def evalT (cfg : ECfg) (al : List (Str × Val)) (env : Env) : Nat → TExpr → Esc → Option Str → XM Val
+  | 0, _, _, _ => xUnsupported "expression nesting too deep"
   | f+1, e, esc, dflt =>
     match e with
-    | .unsupported w => mUnsupported w
-    | .py alts => evalAlts cfg al f alts esc dflt
+    | .unsupported w => xUnsupported w
+    | .py alts => evalAlts cfg al env f alts esc dflt
     | .not_ e tok => do
-      setToken tok
-      let v ← evalT cfg al f e esc dflt
-      let b ← mLiftR (Val.truthy cfg.tab v)
+      xSetToken tok
+      let v ← evalT cfg al env f e esc dflt
+      let b ← xLiftR (Val.truthy cfg.tab v)
       pure (.bool (!b))
-    | .exists_ e => fun s =>
-      match evalT cfg al f e esc dflt s with
-      | .ok _ s' => .ok (.int 1) s'
-      | .raised ex s' => if isSubclass cfg ex.cls cfg.existsExc then .ok (.int 0) s' else .raised ex s'
+    | .exists_ e => fun x =>
+      match evalT cfg al env f e esc dflt x with
+      | .ok _ x' => .ok (.int 1) x'
+      | .raised ex x' => if isSubclass cfg ex.cls cfg.existsExc then .ok (.int 0) x' else .raised ex x'
       | .unsupported w => .unsupported w
     | .structure_ e tok => do
-      setToken tok
-      let v ← evalT cfg al f e esc dflt
+      xSetToken tok
+      let v ← evalT cfg al env f e esc dflt
       match v with
       | .none => pure (.markup (lit "None"))
-      | _ => do let s ← mLiftR (Val.strOf cfg.tab v); pure (.markup s)
+      | _ => do let s ← xLiftR (Val.strOf cfg.tab v); pure (.markup s)
     | .str parts => do
-      let r ← evalParts cfg al f parts esc dflt
+      let r ← evalParts cfg al env f parts esc dflt
       match r with
       | some s => pure (.str s)
       | none => pure .none
-def evalAlts (cfg : ECfg) (al : List (Str × Val)) : Nat → List PyAlt → Esc → Option Str → RM Val
-  | 0, _, _, _ => mUnsupported "expression nesting too deep"
-  | _, [], _, _ => mUnsupported "empty expression"
-  | f+1, a :: rest, esc, dflt => fun s =>
-    let r : Res Val := match a with
-      | .expr e => (do let st ← mGet; runEM (evalP (mkECtx cfg al st) 200 e)) s
-      | .nested e tok => (do setToken tok; evalT cfg al f e esc dflt) s
+def evalAlts (cfg : ECfg) (al : List (Str × Val)) (env : Env) : Nat → List PyAlt → Esc → Option Str → XM Val
+  | 0, _, _, _ => xUnsupported "expression nesting too deep"
+  | _, [], _, _ => xUnsupported "empty expression"
+  | f+1, a :: rest, esc, dflt => fun x =>
+    let r : XRes Val := match a with
+      | .expr e => runEM (evalP (mkECtx cfg al env) 200 e) x
+      | .nested e tok => (do xSetToken tok; evalT cfg al env f e esc dflt) x
     match r with
-    | .ok v s' => .ok v s'
+    | .ok v x' => .ok v x'
     | .unsupported w => .unsupported w
-    | .raised ex s' =>
-      if rest.isEmpty then .raised ex s'
-      else if isSubclass cfg ex.cls cfg.talesExc then evalAlts cfg al f rest esc dflt s'
-      else .raised ex s'
+    | .raised ex x' =>
+      if rest.isEmpty then .raised ex x'
+      else if isSubclass cfg ex.cls cfg.talesExc then evalAlts cfg al env f rest esc dflt x'
+      else .raised ex x'
 /-- the Interpolator's result: `none` = Python `None` (single part evaluating to nothing) -/
-def evalParts (cfg : ECfg) (al : List (Str × Val)) : Nat → List IPart → Esc → Option Str → RM (Option Str)
-  | 0, _, _, _ => mUnsupported "expression nesting too deep"
+def evalParts (cfg : ECfg) (al : List (Str × Val)) (env : Env) : Nat → List IPart → Esc → Option Str → XM (Option Str)
+  | 0, _, _, _ => xUnsupported "expression nesting too deep"
   | f+1, parts, esc, dflt =>
     match parts with
     | [.lit s] => pure (some s)
     | [.expr e tok _] => do
-      setToken tok
-      let v ← evalT cfg al f e esc dflt
-      convertText cfg esc dflt v
+      xSetToken tok
+      let v ← evalT cfg al env f e esc dflt
+      xLiftR (convertText cfg esc dflt v)
     | _ => do
-      let rs ← partsText cfg al f parts esc dflt
+      let rs ← partsText cfg al env f parts esc dflt
       pure (some rs)
-def partsText (cfg : ECfg) (al : List (Str × Val)) : Nat → List IPart → Esc → Option Str → RM Str
-  | 0, _, _, _ => mUnsupported "expression nesting too deep"
+def partsText (cfg : ECfg) (al : List (Str × Val)) (env : Env) : Nat → List IPart → Esc → Option Str → XM Str
+  | 0, _, _, _ => xUnsupported "expression nesting too deep"
   | _, [], _, _ => pure []
   | f+1, p :: rest, esc, dflt => do
     let a ← match p with
       | .lit s => pure s
       | .expr e tok _ => do
-        setToken tok
-        let v ← evalT cfg al f e esc dflt
-        let t ← convertText cfg esc dflt v
+        xSetToken tok
+        let v ← evalT cfg al env f e esc dflt
+        let t ← xLiftR (convertText cfg esc dflt v)
         pure (t.getD [])
-    let b ← partsText cfg al f rest esc dflt
+    let b ← partsText cfg al env f rest esc dflt
     pure (a ++ b)
 end
 
 /-- compile (at evaluation time) the expression held in a token; in non-strict mode an invalid
 expression raises its `ExpressionError` here, i.e. exactly when it is reached -/
-def compileAt (cfg : ECfg) (tok : Tok) : RM TExpr := do
+def compileAt (cfg : ECfg) (tok : Tok) : XM TExpr := do
   match compileTales cfg.tc 64 tok with
   | .ok e => pure e
   | .error (.template cls msg etok) =>
     -- TokenRef(exc.token); raise exc
-    modFrame (fun f => { f with token := some (etok.pos, etok.str.length) })
-    mRaise { cls := cls, msg := Str.ofString msg }
-  | .error (.crash cls) => mUnsupported ("compile crash " ++ cls)
+    xSetTokenRaw etok.pos etok.str.length
+    xRaise { cls := cls, msg := Str.ofString msg }
+  | .error (.crash cls) => xUnsupported ("compile crash " ++ cls)
 
-def evalValue (cfg : ECfg) (al : List (Str × Val)) (tok : Tok) (esc : Esc) (dflt : Option Str) : RM Val := do
+def evalValue (cfg : ECfg) (al : List (Str × Val)) (env : Env) (tok : Tok) (esc : Esc) (dflt : Option Str) : XM Val := do
   let e ← compileAt cfg tok
-  setToken tok
-  evalT cfg al 64 e esc dflt
+  xSetToken tok
+  evalT cfg al env 64 e esc dflt
 
-def getCached (id : Nat) : RM Val := do
-  let s ← mGet
-  match (topFrame s).cache.find? (·.1 == id) with
+def getCached (env : Env) (id : Nat) : XM Val :=
+  match env.topFrame.cache.find? (·.1 == id) with
   | some (_, v) => pure v
-  | none => mUnsupported "read of a cache variable that this activation has not assigned"
+  | none => xUnsupported "read of a cache variable that this activation has not assigned"
+
+/-- the statements `assign_text` appends after the evaluation -/
+def substTail (cfg : ECfg) (esc : Esc) (dflt : Option Str) (literalFalse : Bool) (v : Val) : XM Val := do
+  if !literalFalse then
+    let b ← xLiftR (Val.truthy cfg.tab v)
+    if !b then pure .none else do
+      let t ← xLiftR (convertText cfg esc dflt v)
+      pure (match t with | some s => .str s | none => .none)
+  else do
+    let t ← xLiftR (convertText cfg esc dflt v)
+    pure (match t with | some s => .str s | none => .none)
 
 /-- evaluate an expression node to an object (`ExpressionTransform`) -/
-def evalEN (cfg : ECfg) (al : List (Str × Val)) : Nat → EN → RM Val
-  | 0, _ => mUnsupported "expression node nesting"
+def evalEN (cfg : ECfg) (al : List (Str × Val)) (env : Env) : Nat → EN → XM Val
+  | 0, _ => xUnsupported "expression node nesting"
   | f+1, e =>
     match e with
     | .const s => pure (.str s)
-    | .value tok => evalValue cfg al tok .none none
-    | .valueD tok d => evalValue cfg al tok .none d
-    | .ref id => getCached id
+    | .value tok => evalValue cfg al env tok .none none
+    | .valueD tok d => evalValue cfg al env tok .none d
+    | .ref id => getCached env id
     | .marker => pure .dflt
     | .cancelMarker => pure (.excClass "<CANCEL>")
     | .staticDict kvs => pure (.dict (kvs.map (fun (k, v) => (Val.str k, Val.str v))))
-    | .pyName n => do
-      let s ← mGet
-      runEM (resolveName (mkECtx cfg al s) n)
+    | .pyName n => runEM (resolveName (mkECtx cfg al env) n)
     | .negate e => do
-      let v ← evalEN cfg al f e
-      let b ← mLiftR (Val.truthy cfg.tab v)
+      let v ← evalEN cfg al env f e
+      let b ← xLiftR (Val.truthy cfg.tab v)
       pure (.bool (!b))
     | .binop l op r => do
-      let x ← evalEN cfg al f l
-      let y ← evalEN cfg al f r
+      let x ← evalEN cfg al env f l
+      let y ← evalEN cfg al env f r
       match op with
       | .is_ => do
         match x, y with
         | .excClass a, .excClass b => pure (.bool (a == b))
         | .excClass _, _ | _, .excClass _ => pure (.bool false)
-        | _, _ => do let b ← mLiftR (Val.pyIs x y); pure (.bool b)
+        | _, _ => do let b ← xLiftR (Val.pyIs x y); pure (.bool b)
       | .isNot => do
         match x, y with
         | .excClass a, .excClass b => pure (.bool (a != b))
         | .excClass _, _ | _, .excClass _ => pure (.bool true)
-        | _, _ => do let b ← mLiftR (Val.pyIs x y); pure (.bool (!b))
+        | _, _ => do let b ← xLiftR (Val.pyIs x y); pure (.bool (!b))
       | .equals => do
         match x, y with
-        | .excClass _, _ | _, .excClass _ => mUnsupported "comparison with the cancel marker"
-        | _, _ => do let b ← mLiftR (Val.pyEq x y); pure (.bool b)
+        | .excClass _, _ | _, .excClass _ => xUnsupported "comparison with the cancel marker"
+        | _, _ => do let b ← xLiftR (Val.pyEq x y); pure (.bool b)
     | .subst tok esc dflt literalFalse => do
-      let v ← evalValue cfg al tok esc dflt
+      let v ← evalValue cfg al env tok esc dflt
       substTail cfg esc dflt literalFalse v
     | .boolean tok s dflt => do
-      let v ← evalValue cfg al tok .none dflt
+      let v ← evalValue cfg al env tok .none dflt
       match v with
       | .dflt => pure (match dflt with | some d => .str d | none => .none)
       | _ => do
-        let b ← mLiftR (Val.truthy cfg.tab v)
+        let b ← xLiftR (Val.truthy cfg.tab v)
         pure (if b then .str s else .none)
     | .interp tok esc dflt literalFalse required translation => do
-      if translation then mUnsupported "implicit translation of interpolated text" else
+      if translation then xUnsupported "implicit translation of interpolated text" else
       match compileInterp cfg.tc 64 tok required true with
-      | .error (.template cls msg etok) =>
-        modFrame (fun fr => { fr with token := some (etok.pos, etok.str.length) })
-        mRaise { cls := cls, msg := Str.ofString msg }
-      | .error (.crash cls) => mUnsupported ("compile crash " ++ cls)
+      | .error (.template cls msg etok) => do
+        xSetTokenRaw etok.pos etok.str.length
+        xRaise { cls := cls, msg := Str.ofString msg }
+      | .error (.crash cls) => xUnsupported ("compile crash " ++ cls)
       | .ok parts => do
-        setToken tok
-        let r ← evalParts cfg al 64 parts esc dflt
+        xSetToken tok
+        let r ← evalParts cfg al env 64 parts esc dflt
         let v : Val := match r with | some s => .str s | none => .none
         -- emit_convert on the joined result is the identity on str / None
         if literalFalse then pure v else do
-          let b ← mLiftR (Val.truthy cfg.tab v)
+          let b ← xLiftR (Val.truthy cfg.tab v)
           pure (if b then v else .none)
     | .replace e s => do
-      let v ← evalEN cfg al f e
-      let b ← mLiftR (Val.truthy cfg.tab v)
+      let v ← evalEN cfg al env f e
+      let b ← xLiftR (Val.truthy cfg.tab v)
       pure (if b then .str s else v)
     | .translate msgid e => do
-      let v ← evalEN cfg al f e
+      let v ← evalEN cfg al env f e
       match v with
       | .str t =>
-        let r ← callTranslate cfg (msgid.getD t) none (some t)
+        let r ← callTranslate cfg env (msgid.getD t) none (some t)
         pure (.str r)
       | .none =>
         match msgid with
-        | some m => do let r ← callTranslate cfg m none none; pure (.str r)
-        | none => mUnsupported "translate(None)"
-      | _ => mUnsupported "translation of a non-text attribute value"
-where
-  /-- the statements `assign_text` appends after the evaluation -/
-  substTail (cfg : ECfg) (esc : Esc) (dflt : Option Str) (literalFalse : Bool) (v : Val) : RM Val := do
-    if !literalFalse then
-      let b ← mLiftR (Val.truthy cfg.tab v)
-      if !b then pure .none else do
-        let t ← convertText cfg esc dflt v
-        pure (match t with | some s => .str s | none => .none)
-    else do
-      let t ← convertText cfg esc dflt v
-      pure (match t with | some s => .str s | none => .none)
+        | some m => do let r ← callTranslate cfg env m none none; pure (.str r)
+        | none => xUnsupported "translate(None)"
+      | _ => xUnsupported "translation of a non-text attribute value"
 
 /-- `Compiler.visit_Condition`: And/Or chains test `is True` / `is False` on the last result -/
-def evalCond (cfg : ECfg) (al : List (Str × Val)) : Nat → CondE → RM Val
-  | 0, _ => mUnsupported "condition nesting"
+def evalCond (cfg : ECfg) (al : List (Str × Val)) (env : Env) : Nat → CondE → XM Val
+  | 0, _ => xUnsupported "condition nesting"
   | f+1, c =>
     match c with
-    | .e x => evalEN cfg al 64 x
-    | .and_ xs => chain cfg al f xs true
-    | .or_ xs => chain cfg al f xs false
+    | .e x => evalEN cfg al env 64 x
+    | .and_ xs => chain cfg al env f xs true
+    | .or_ xs => chain cfg al env f xs false
 where
-  chain (cfg : ECfg) (al : List (Str × Val)) : Nat → List CondE → Bool → RM Val
+  chain (cfg : ECfg) (al : List (Str × Val)) (env : Env) : Nat → List CondE → Bool → XM Val
     | _, [], _ => pure .none
-    | f, [x] , _ => evalCond cfg al f x
+    | f, [x] , _ => evalCond cfg al env f x
     | f, x :: rest, isAnd => do
-      let v ← evalCond cfg al f x
+      let v ← evalCond cfg al env f x
       match v with
-      | .bool b => if b == isAnd then chain cfg al f rest isAnd else pure v
+      | .bool b => if b == isAnd then chain cfg al env f rest isAnd else pure v
       | _ => pure v
 
 def pushStream : RM Unit := mModify (fun s => { s with streams := [] :: s.streams })
@@ -395,11 +434,40 @@ def stripStr (s : Str) : Str := ((s.dropWhile Tok.isWs).reverse.dropWhile Tok.is
 
 def compilerDisallowed : List String := Gen.compilerInternals
 
-/-- Python truthiness of a dictionary-attribute value etc. -/
+/-- expression-level helpers lifted to the node level -/
+def enVal (cfg : ECfg) (al : List (Str × Val)) (e : EN) : RM Val := liftX (fun env => evalEN cfg al env 64 e)
 def vTruthy (cfg : ECfg) (v : Val) : RM Bool := mLiftR (Val.truthy cfg.tab v)
 
 def restore (bk : List (Str × Option Val)) : RM Unit :=
   bk.forM (fun (k, v) => match v with | some x => setVar k x | none => delVar k)
+
+/-- `NAME not in __chain(*filter values)`: lazily iterates each cached dictionary-expression value -/
+def attrFiltered (name : Str) (filters : List Nat) : RM Bool := do
+  let s ← mGet
+  let fr := s.env.topFrame
+  let rec go : List Nat → RM Bool
+    | [] => pure false
+    | id :: rest =>
+      match fr.cache.find? (·.1 == id) with
+      | some (_, .dict kvs) => if kvs.any (fun kv => kv.1 == Val.str name) then pure true else go rest
+      | some (_, .list vs) | some (_, .tuple vs) => if vs.any (fun v => v == Val.str name) then pure true else go rest
+      | some (_, .none) | some (_, .bool _) | some (_, .int _) => mRaise { cls := "TypeError", msg := [] }
+      | some _ => mUnsupported "membership test on this filter value"
+      | none => mUnsupported "filter expression not cached"
+  go filters
+
+/-- the `except Exception` branch of `visit_OnError`: bind `error`, call the handler, cut the stream
+back to the saved length (dropping any translation sub-streams opened since), leave the fallback to run -/
+def onErrorHandle (cfg : ECfg) (key depth savedLen : Nat) (ex : Exc) (s' : RState) : Option RState :=
+  match s'.x.token with
+  | none => none
+  | some (pos, _) =>
+    let (line, col) := Tok.location cfg.src { str := [], pos := pos }
+    let cut := ((s'.env.topFrame.saved.find? (·.1 == key)).map (·.2)).getD savedLen
+    let streams0 := s'.streams.drop (s'.streams.length - depth)
+    let streams1 := match streams0 with | top :: rest => top.take cut :: rest | [] => []
+    let env' : Env := { s'.env with own := (lit "error", Val.errorInfo ex.cls ex.msg line col) :: s'.env.own.filter (·.1 != lit "error") }
+    some { s' with streams := streams1, handled := s'.handled + 1, env := env' }
 
 mutual
 def eval (cfg : ECfg) (al : List (Str × Val)) : Nat → Node → RM Unit
@@ -420,41 +488,26 @@ def eval (cfg : ECfg) (al : List (Str × Val)) : Nat → Node → RM Unit
       match suffix with
       | some s => emit s
       | none => mRaise { cls := "TypeError", msg := [] }
-    | .end_ name _space pfx suffix =>
-      emit (pfx ++ name ++ (if cfg.tc.q.endTagSpaceTwice then (_space.getD []) else []) ++ suffix.getD [])
-    | .attribute name e quote eq space _dflt filters => do
-      -- `NAME not in __chain(*filter values)`: lazily iterates each cached dictionary-expression value
-      let filtered : RM Bool := do
-        let s ← mGet
-        let fr := topFrame s
-        let rec go : List Nat → RM Bool
-          | [] => pure false
-          | id :: rest =>
-            match fr.cache.find? (·.1 == id) with
-            | some (_, .dict kvs) => if kvs.any (fun kv => kv.1 == Val.str name) then pure true else go rest
-            | some (_, .list vs) | some (_, .tuple vs) => if vs.any (fun v => v == Val.str name) then pure true else go rest
-            | some (_, .none) | some (_, .bool _) | some (_, .int _) => mRaise { cls := "TypeError", msg := [] }
-            | some _ => mUnsupported "membership test on this filter value"
-            | none => mUnsupported "filter expression not cached"
-        go filters
+    | .end_ name space pfx suffix =>
+      emit (pfx ++ name ++ (if cfg.tc.q.endTagSpaceTwice then (space.getD []) else []) ++ suffix.getD [])
+    | .attribute name e quote eq space _dflt filters =>
       match e with
       | .const s => do
-        let skip ← filtered
+        let skip ← attrFiltered name filters
         if skip then pure () else emit (space ++ name ++ eq ++ quote ++ s ++ quote)
       | _ => do
-        let v ← evalEN cfg al 64 e
+        let v ← enVal cfg al e
         match v with
         | .none => pure ()
         | .str t => do
-          let skip ← filtered
+          let skip ← attrFiltered name filters
           if skip then pure () else emit (space ++ name ++ eq ++ quote ++ t ++ quote)
         | _ => mUnsupported "non-text attribute value"
     | .dictAttrs id e exclude => do
-      let d ← (do
-        let s ← mGet
-        match (topFrame s).cache.find? (·.1 == id) with
+      let s0 ← mGet
+      let d ← (match s0.env.topFrame.cache.find? (·.1 == id) with
         | some (_, v) => pure v
-        | none => evalEN cfg al 64 e)
+        | none => enVal cfg al e)
       match d with
       | .dict kvs =>
         kvs.forM (fun (k, v) => do
@@ -469,7 +522,7 @@ def eval (cfg : ECfg) (al : List (Str × Val)) : Nat → Node → RM Unit
             else match v' with
               | .none => pure ()
               | _ => do
-                let t ← convertText cfg .dq none v'
+                let t ← mLiftR (convertText cfg .dq none v')
                 match t with
                 | some s => emit ([32] ++ name ++ [61, 34] ++ s ++ [34])
                 | none => mRaise { cls := "TypeError", msg := [] }
@@ -477,21 +530,21 @@ def eval (cfg : ECfg) (al : List (Str × Val)) : Nat → Node → RM Unit
       | .none => mRaise { cls := "AttributeError", msg := lit "'NoneType' object has no attribute 'items'" }
       | _ => mUnsupported "attribute dictionary of this class"
     | .content e esc translate => do
-      let v ← evalEN cfg al 64 e
+      let v ← enVal cfg al e
       if translate then mUnsupported "tal:content with i18n:translate=\"\"" else
-      let q ← toQIn cfg v
+      let q ← mLiftR (toQIn cfg v)
       let t := if esc then quoteVal Site.content.q Site.content.qe none q else convertVal q
       match t with
       | some s => emit s
       | none => pure ()
     | .interpolation e => do
-      let v ← evalEN cfg al 64 e
+      let v ← enVal cfg al e
       match v with
       | .str s => emit s
       | .none => pure ()
       | _ => mUnsupported "interpolation result"
     | .condition c node orelse => do
-      let v ← evalCond cfg al 16 c
+      let v ← liftX (fun env => evalCond cfg al env 16 c)
       let b ← vTruthy cfg v
       if b then eval cfg al f node
       else match orelse with
@@ -499,10 +552,7 @@ def eval (cfg : ECfg) (al : List (Str × Val)) : Nat → Node → RM Unit
         | none => pure ()
     | .cache es node => do
       es.forM (fun (id, e) => do
-        let s ← mGet
-        -- `if self._expression_cache.get(expression): continue` is a compile-time test on the object
-        let _ := s
-        let v ← evalEN cfg al 64 e
+        let v ← enVal cfg al e
         modFrame (fun fr => { fr with cache := (id, v) :: fr.cache.filter (·.1 != id) }))
       eval cfg al f node
     | .cancel ids node => do
@@ -510,11 +560,11 @@ def eval (cfg : ECfg) (al : List (Str × Val)) : Nat → Node → RM Unit
       eval cfg al f node
     | .define assigns node => evalDefine cfg al f assigns node []
     | .repeat_ _id names e local_ ws node => do
-      -- outer: evaluate the iterable first, then (local) backups were taken *before* it
+      -- (local) backups are taken before the iterable is evaluated
       let s0 ← mGet
-      let backups : List (Str × Option Val) := if local_ then names.map (fun nm => (nm.str, scopeGet s0 nm.str)) else []
-      let it ← evalEN cfg al 64 e
-      (match scopeGet s0 (lit "repeat") with
+      let backups : List (Str × Option Val) := if local_ then names.map (fun nm => (nm.str, s0.env.get nm.str)) else []
+      let it ← enVal cfg al e
+      (match s0.env.get (lit "repeat") with
         | some .repeatDict => pure ()
         | _ => mUnsupported "`repeat` rebound by the template (D-05e)")
       let items : List Val ← match it with
@@ -527,7 +577,7 @@ def eval (cfg : ECfg) (al : List (Str × Val)) : Nat → Node → RM Unit
         | [nm] => nm.str
         | _ => []
       if names.length != 1 then mUnsupported "tuple repeat key" else
-      mModify (fun s => { s with repeats := (key, { length := items.length, consumed := 0 }) :: s.repeats.filter (·.1 != key) })
+      modEnv (fun e => { e with repeats := (key, { length := items.length, consumed := 0 }) :: e.repeats.filter (·.1 != key) })
       names.forM (fun nm => setVar nm.str .none)
       evalRepeat cfg al f key names local_ ws node items items.length
       -- `if local: outer += self._leave_assignment(names)`
@@ -535,30 +585,18 @@ def eval (cfg : ECfg) (al : List (Str × Val)) : Nat → Node → RM Unit
     | .onError id fallback node => fun s =>
       let key := if cfg.tc.q.sharedFallbackVar then 0 else id
       let savedLen := (s.streams.headD []).length
-      let s1 : RState := match s.frames with
-        | fr :: rest => { s with frames := { fr with saved := (key, savedLen) :: fr.saved.filter (·.1 != key) } :: rest }
-        | [] => s
+      let depth := s.streams.length
+      let s1 : RState := { s with env := match s.env.frames with
+        | fr :: rest => { s.env with frames := { fr with saved := (key, savedLen) :: fr.saved.filter (·.1 != key) } :: rest }
+        | [] => s.env }
       match eval cfg al f node s1 with
       | .ok () s' => .ok () s'
       | .unsupported w => .unsupported w
       | .raised ex s' =>
         if !isSubclass cfg ex.cls ["Exception"] then .raised ex s'
-        else
-          -- econtext['error'] = ErrorInfo(exc, tokens[__token][1:3]); handler; del stream[saved:]; fallback
-          let fr := topFrame s'
-          match fr.token with
+        else match onErrorHandle cfg key depth savedLen ex s' with
           | none => .unsupported "on-error with __token None"
-          | some (pos, _) =>
-            let srcTok : Tok := { str := [], pos := pos }
-            let (line, col) := Tok.location cfg.src srcTok
-            let cut := ((fr.saved.find? (·.1 == key)).map (·.2)).getD savedLen
-            let s2 : RState := { s' with
-              streams := match s'.streams with | top :: rest => top.take cut :: rest | [] => [],
-              handled := s'.handled + 1,
-              own := (lit "error", Val.errorInfo ex.cls ex.msg line col) :: s'.own.filter (·.1 != lit "error") }
-            -- the fallback runs inside `_enter_assignment(('error',))` … `_leave_assignment` is *not* emitted
-            -- around it at run time (both are compile-time bookkeeping for the name); it just runs
-            eval cfg al f fallback s2
+          | some s2 => eval cfg al f fallback s2
     | .translate _ msgid node => do
       pushStream
       eval cfg al f node
@@ -566,28 +604,28 @@ def eval (cfg : ECfg) (al : List (Str × Val)) : Nat → Node → RM Unit
       let computed := stripStr (collapseWsStr body)
       match msgid with
       | some m => do
-        let r ← callTranslate cfg m none (some computed)
+        let r ← liftX (fun env => callTranslate cfg env m none (some computed))
         emit r
       | none =>
         if computed.isEmpty then pure () else do
-          let r ← callTranslate cfg computed none (some computed)
+          let r ← liftX (fun env => callTranslate cfg env computed none (some computed))
           emit r
     | .domain d node => do
       let s ← mGet
-      let old := (topFrame s).domain
+      let old := s.env.topFrame.domain
       modFrame (fun fr => { fr with domain := some d })
       eval cfg al f node
       modFrame (fun fr => { fr with domain := old })
     | .txContext c node => do
       let s ← mGet
-      let old := (topFrame s).context
+      let old := s.env.topFrame.context
       modFrame (fun fr => { fr with context := some c })
       eval cfg al f node
       modFrame (fun fr => { fr with context := old })
     | .target e node => do
       let s ← mGet
-      let old := (topFrame s).targetLang
-      let v ← evalEN cfg al 64 e
+      let old := s.env.topFrame.targetLang
+      let v ← enVal cfg al e
       modFrame (fun fr => { fr with targetLang := v })
       eval cfg al f node
       modFrame (fun fr => { fr with targetLang := old })
@@ -610,16 +648,16 @@ def evalDefine (cfg : ECfg) (al : List (Str × Val)) : Nat → List Assign → N
   | f+1, a :: rest, node, backups =>
     match a with
     | .alias name e => do
-      let v ← evalEN cfg al 64 e
+      let v ← enVal cfg al e
       evalDefine cfg ((name, v) :: al) f rest node backups
     | .assign names e local_ => do
       let s0 ← mGet
-      let bk : List (Str × Option Val) := if local_ then names.map (fun nm => (nm.str, scopeGet s0 nm.str)) else []
-      let v ← evalEN cfg al 64 e
+      let bk : List (Str × Option Val) := if local_ then names.map (fun nm => (nm.str, s0.env.get nm.str)) else []
+      let v ← enVal cfg al e
       match names with
       | [nm] => do
         setVar nm.str v
-        if !local_ then mModify (fun s => { s with rcontext := (nm.str, v) :: s.rcontext.filter (·.1 != nm.str) }) else pure ()
+        if !local_ then setGlobal nm.str v else pure ()
       | _ => do
         let vs ← match v with
           | .list vs | .tuple vs => pure vs
@@ -629,8 +667,7 @@ def evalDefine (cfg : ECfg) (al : List (Str × Val)) : Nat → List Assign → N
         else do
           (names.zip vs).forM (fun (nm, x) => setVar nm.str x)
           -- global tuple define: `rcontext[name] = __value` stores the *whole* value under each name
-          if !local_ then names.forM (fun nm => mModify (fun s => { s with rcontext := (nm.str, v) :: s.rcontext.filter (·.1 != nm.str) }))
-          else pure ()
+          if !local_ then names.forM (fun nm => setGlobal nm.str v) else pure ()
       -- later assignments' backups are restored first (reverse order)
       evalDefine cfg al f rest node (bk ++ backups)
 def evalRepeat (cfg : ECfg) (al : List (Str × Val)) : Nat → Str → List Tok → Bool → Str → Node → List Val → Nat → RM Unit
@@ -638,11 +675,11 @@ def evalRepeat (cfg : ECfg) (al : List (Str × Val)) : Nat → Str → List Tok 
   | _, _, _, _, _, _, [], _ => pure ()
   | f+1, key, names, local_, ws, node, item :: rest, remaining => do
     -- next(): the shared iterator advances
-    mModify (fun s => { s with repeats := s.repeats.map (fun (k, r) => if k == key then (k, { r with consumed := r.consumed + 1 }) else (k, r)) })
+    modEnv (fun e => { e with repeats := e.repeats.map (fun (k, r) => if k == key then (k, { r with consumed := r.consumed + 1 }) else (k, r)) })
     match names with
     | [nm] => do
       setVar nm.str item
-      if !local_ then mModify (fun s => { s with rcontext := (nm.str, item) :: s.rcontext.filter (·.1 != nm.str) }) else pure ()
+      if !local_ then setGlobal nm.str item else pure ()
     | _ => mUnsupported "tuple repeat"
     eval cfg al f node
     if remaining - 1 > 0 then emit ws else pure ()
